@@ -4,6 +4,7 @@ import SpecVerif.Proofs.C08
 import SpecVerif.Proofs.C14
 import Mathlib.Algebra.Star.Rat
 import Mathlib.Tactic.NormNum
+import SpecVerif.Proofs.Lemmas.CRatField
 /-
   C03 — amplitude equivariance.
 
@@ -550,5 +551,81 @@ example : letI : ReOrd ℚ := ⟨fun a => a ≤ 0, fun a b => a > b⟩
 totalised `0/0 = 0` instead of `-4/5` (`x = [1, 2]` over `ℚ`) -/
 example : (burgRun (([1, 2] : List ℚ).map ((0 : ℚ) * ·)) 1).ref ≠ (burgRun ([1, 2] : List ℚ) 1).ref := by
   decide +kernel
+
+/-! ### instantiation at the executed scalar type `CRat`
+
+`Lemmas/CRatField.lean` makes the Gaussian rationals of the executable model a `Field` / `StarRing` whose
+operations ARE the model's hand-written instances.  The theorems below are the generic theorems of this
+file specialised to `K := CRat` (by plain application — no rewriting): their statements elaborate to the
+model functions applied to the model's own instances (`CRat.instAdd`, `CRat.instMul`, `CRat.instDiv`, …,
+`CRat.instConj`), i.e. to the code that the differential test executes; `conj` is the model's conjugation.
+The `example … := rfl` lines check that the `Field`-path elaboration used by the generic theorems,
+instantiated at `CRat`, is that very function. -/
+section CRatInstantiation
+
+open SpecVerif.CRatL in
+/-- **`levinson_scale_status` for the executed model**, `t = |c|²`: the hypothesis `hre` on the sign test
+is discharged for the model's `instReOrdCRat` (`CRatL.reLe0_abs2_mul_CRat`) -/
+theorem levinson_scale_status_CRat {c : CRat} (hc : c ≠ 0) (r0 : CRat) (T : List CRat) (order : ℕ)
+    (allow : Bool) :
+    levinson ((c * conj c) * r0) (T.map ((c * conj c) * ·)) order allow
+      = (levinson r0 T order allow).map
+          (fun st => { A := st.A, P := (c * conj c) * st.P, ref := st.ref }) :=
+  levinson_scale_status (mul_star_self_ne_zero hc) (reLe0_abs2_mul_CRat hc) r0 T order allow
+
+open SpecVerif.CRatL in
+/-- **`arburg_scale` for the executed model**: `hre` discharged -/
+theorem arburg_scale_CRat {c : CRat} (hc : c ≠ 0) (stop stop' : ℕ → CRat → Bool)
+    (hstop : ∀ k ρ, stop' k ((c * conj c) * ρ) = stop k ρ) (x : List CRat) (order : ℕ)
+    (useCrit : Bool) :
+    arburg (x.map (c * ·)) order useCrit stop'
+      = (arburg x order useCrit stop).map (fun st =>
+          { a := st.a, rho := (c * conj c) * st.rho, ref := st.ref, ef := st.ef.map (c * ·),
+            eb := st.eb.map (c * ·), den := (c * conj c) * st.den, temp := st.temp }) :=
+  arburg_scale hc stop stop' hstop (reLe0_abs2_mul_CRat hc) x order useCrit
+
+/-- **`arcovar_scale_solver` for the executed model**: the lawfulness of the pivot test is the instance
+`CRat.instLawfulIsZero` -/
+theorem arcovar_scale_solver_CRat {c : CRat} (hc : c ≠ 0) (x : List CRat) (p : ℕ)
+    (a a' : List CRat) (e e' : CRat)
+    (h : arcovar x p = some (a, e)) (h' : arcovar (x.map (c * ·)) p = some (a', e')) :
+    a' = a ∧ e' = (c * conj c) * e :=
+  arcovar_scale_solver hc x p a a' e e' h h'
+
+open SpecVerif.CRatL in
+/-- **`signal_space_scale` for the executed model**, `t = |c|²`: `hgt` discharged -/
+theorem signal_space_scale_CRat {c : CRat} (hc : c ≠ 0)
+    (S : List CRat) (nsig : Option ℕ) (threshold : Option CRat) (critArgmin : ℕ) :
+    signalSpace (S.map ((c * conj c) * ·)) nsig threshold critArgmin
+      = signalSpace S nsig threshold critArgmin :=
+  signal_space_scale (reGt_abs2_mul_CRat hc) S nsig threshold critArgmin
+
+open SpecVerif.CRatL in
+/-- **`mt_adapt_scale` for the executed model**: both comparison hypotheses discharged -/
+theorem mt_adapt_scale_CRat {c : CRat} (hc : c ≠ 0) (x lams : List CRat) (SkA : List (List CRat))
+    (nfft : ℕ) (tolc : CRat) :
+    pmtmWeights .adapt (x.map (c * ·)) lams (SkA.map (·.map ((c * conj c) * ·))) nfft tolc
+        = pmtmWeights .adapt x lams SkA nfft tolc ∧
+    mtMean .adapt (SkA.map (·.map ((c * conj c) * ·)))
+        (pmtmWeights .adapt (x.map (c * ·)) lams (SkA.map (·.map ((c * conj c) * ·))) nfft tolc)
+        nfft lams.length
+      = (mtMean .adapt SkA (pmtmWeights .adapt x lams SkA nfft tolc) nfft lams.length).map
+          ((c * conj c) * ·) :=
+  mt_adapt_scale (mul_star_self_ne_zero hc) (reGt_abs2_mul_CRat hc) (reLe0_abs2_mul_CRat hc) rfl
+    x lams SkA nfft tolc
+
+example : (fun (K : Type) [Field K] [StarRing K] [ReOrd K] => (levinson : K → _)) CRat
+    = @levinson CRat CRat.instAdd CRat.instSub CRat.instMul CRat.instDiv CRat.instNeg
+        CRat.instOfNatOfNatNat CRat.instOfNatOfNatNat_1 CRat.instConj instReOrdCRat := rfl
+example : (fun (K : Type) [Field K] [StarRing K] [ReOrd K] => (arburg : List K → _)) CRat
+    = @arburg CRat CRat.instAdd CRat.instSub CRat.instMul CRat.instDiv CRat.instNeg
+        CRat.instOfNatOfNatNat CRat.instOfNatOfNatNat_1 CRat.instNatCast CRat.instConj
+        instReOrdCRat := rfl
+example : (fun (K : Type) [Field K] [StarRing K] [ReOrd K] => (pmtmWeights : _ → List K → _)) CRat
+    = @pmtmWeights CRat CRat.instAdd CRat.instSub CRat.instMul CRat.instDiv CRat.instNeg
+        CRat.instOfNatOfNatNat CRat.instOfNatOfNatNat_1 CRat.instNatCast CRat.instConj
+        instReOrdCRat := rfl
+
+end CRatInstantiation
 
 end SpecVerif.C03
